@@ -12,7 +12,7 @@ PROPS = {
     "C04": {"level": "exploration", "engines": "S", "quick": DEFAULT_Q, "thorough": DEFAULT_T, "rule": GEN_RULE, "assumptions": ["assertions on accounts other than assets/liabilities are not generated (the property is silent)"]},
     "C05": {"level": "exploration", "engines": "S", "quick": {"cases": 300, "secs": 45, "shrink_secs": 10}, "thorough": DEFAULT_T, "rule": GEN_RULE, "assumptions": ["map iteration order is held equal (per-content mode, same seed) between the layouts compared; run-to-run determinism is C06"]},
     "C09": {"level": "exploration", "engines": "S", "quick": {"cases": 600, "secs": 45, "shrink_secs": 10}, "thorough": DEFAULT_T, "rule": GEN_RULE, "assumptions": []},
-    "C19": {"level": "exploration", "engines": "S", "quick": {"cases": 1200, "secs": 45, "shrink_secs": 10}, "thorough": DEFAULT_T, "rule": GEN_RULE, "assumptions": []},
+    "C19": {"level": "exploration", "engines": "SR", "quick": {"cases": 1200, "secs": 45, "shrink_secs": 10}, "thorough": DEFAULT_T, "rule": GEN_RULE, "assumptions": []},
     "C14": {"level": "fault_enumeration", "engines": "S", "quick": {"cases": 560, "secs": 50, "shrink_secs": 8}, "thorough": DEFAULT_T,
             "rule": GEN_RULE + "; per workload the fault-free run is traced and every read operation (ReadFile/Open/Read) is failed in turn with ENOENT, EACCES, EISDIR, EIO, a truncated and a bit-flipped result; include graphs (self, 2- and 3-cycles, diamond, missing, directory), flag faults, byte soup and edge inputs are separate sub-checks", "assumptions": ["one fault per run", "step budget 20000 / task budget 2000 stand for 'does not terminate'"]},
     "C18": {"level": "fault_enumeration", "engines": "S", "quick": {"cases": 112, "secs": 50, "shrink_secs": 8}, "thorough": DEFAULT_T,
